@@ -287,61 +287,129 @@ func c03r3(c *Ctx) {
 
 func c03r4(c *Ctx) {
 	s := getStoreRoles(c.P)
-	// the Height writer: DBStore method that writes the keyHeight key
-	keyHeight := c.P.Package("chain").Types.Scope().Lookup("keyHeight")
-	bMain := c.P.Package("chain").Types.Scope().Lookup("bMainChain")
-	if keyHeight == nil || bMain == nil {
-		ir.Fail("keyHeight / bMainChain not found")
-	}
-	var putHeight *ir.Func
-	bestWriters := map[*types.Func]bool{}
-	for _, f := range s.methods {
-		if !s.writers[f.Obj] {
+	putHeight, bestWriters := bestIndexRoles(c, s)
+	vs := s.stateViews(c, putHeight, bestWriters)
+	for _, f := range vs.Roots {
+		if f.Base == putHeight || len(f.CallsTo(false, putHeight.Obj)) == 0 || !isMethodOf(f, "DBStore") {
 			continue
 		}
-		if f.MentionsObj(f.Body, false, keyHeight) && len(f.CallsTo(false, s.bucketWrites...)) > 0 {
-			putHeight = f
-		} else if f.MentionsObj(f.Body, false, bMain) && len(f.CallsTo(false, s.bucketWrites...)) > 0 {
-			bestWriters[f.Obj] = true // putBestIndex / deleteBestIndex
-		}
-	}
-	if putHeight == nil {
-		ir.Fail("Height writer not found in DBStore")
-	}
-	for _, f := range s.methods {
-		if f == putHeight || len(f.CallsTo(false, putHeight.Obj)) == 0 {
-			continue
-		}
+		g := f.Graph()
 		c.VisitGraph(f)
 		ob := c.Ob(f, "height-and-best-index-together", f.Body.Pos())
-		hasBest := false
-		for _, call := range f.Calls(false) {
-			if bestWriters[call.Fn] {
-				hasBest = true
+		var hs, bs []*cfgx.Node
+		isFlush := func(n *cfgx.Node) bool {
+			for _, call := range f.NodeCalls(n) {
+				if s.flushPoints[call.Fn] {
+					return true
+				}
+			}
+			return false
+		}
+		for _, n := range g.Nodes {
+			for _, call := range f.NodeCalls(n) {
+				if call.Fn == putHeight.Obj {
+					hs = append(hs, n)
+				}
+				if bestWriters[call.Fn] {
+					bs = append(bs, n)
+				}
 			}
 		}
-		hasFlush := false
-		for _, call := range f.Calls(false) {
-			if s.flushPoints[call.Fn] {
-				hasFlush = true
+		// every path that writes Height also writes (or deletes) the best-index entry …
+		isBest := func(n *cfgx.Node) bool {
+			for _, b := range bs {
+				if b == n {
+					return true
+				}
+			}
+			return false
+		}
+		skips := false
+		avoidBest := g.Reach([]*cfgx.Visit{cfgx.StartAt(g.Entry, 0)}, isBest)
+		for _, h := range hs {
+			if _, ok := avoidBest[h]; ok {
+				// reached without a best-index write before it: one must follow on every way out
+				var st []*cfgx.Visit
+				for _, e := range h.Succs {
+					st = append(st, cfgx.StartAfter(e, 0))
+				}
+				if _, out := g.Reach(st, isBest)[g.Exit]; out {
+					skips = true
+				}
+			}
+		}
+		// … and no commit point separates the two writes
+		split := false
+		for _, h := range hs {
+			for _, b := range bs {
+				for n := range pathNodesBetween(g, h, b) {
+					if isFlush(n) {
+						split = true
+					}
+				}
+				for n := range pathNodesBetween(g, b, h) {
+					if isFlush(n) {
+						split = true
+					}
+				}
 			}
 		}
 		switch {
-		case !hasBest:
+		case len(bs) == 0 || skips:
 			ob.Bad(nil, "%s writes the Height key without writing or deleting the best-index entry: the reopened tip is looked up at a height whose index entry is stale", f.Name())
-		case hasFlush:
+		case split:
 			ob.Bad(nil, "%s commits between writing the best-index entry and the Height key", f.Name())
 		default:
-			ob.OK("best-index entry and Height written in one function without a commit point")
+			ob.OK("best-index entry and Height written on the same paths without a commit point between them")
 		}
 	}
 	checkRevertRemovesEntry(c, s, putHeight, bestWriters)
+}
+
+func isMethodOf(f *ir.Func, typ string) bool {
+	if f.Obj == nil {
+		return false
+	}
+	recv := f.Obj.Type().(*types.Signature).Recv()
+	if recv == nil {
+		return false
+	}
+	n := ir.NamedOf(recv.Type())
+	return n != nil && n.Obj().Name() == typ
+}
+
+// stateViews: package chain with helpers expanded; the Height writer, the
+// best-index writers and the store's commit points stay calls.
+func (s *storeRoles) stateViews(c *Ctx, putHeight *ir.Func, bestWriters map[*types.Func]bool) *ir.ViewSet {
+	return c.P.Views("chain", ir.ExpandOpt{Key: "store-state", Stop: func(fn *types.Func) bool {
+		return fn == putHeight.Obj || bestWriters[fn] || s.flushPoints[fn]
+	}})
+}
+
+// reaches reports whether fn's body reaches a call of target through repository functions (at most depth hops).
+func reaches(p *ir.Prog, fn *types.Func, target *types.Func, depth int) bool {
+	f := p.FuncOf(fn)
+	if f == nil || depth < 0 {
+		return false
+	}
+	for _, call := range f.Calls(true) {
+		if call.Fn == nil {
+			continue
+		}
+		if call.Fn == target.Origin() || reaches(p, call.Fn, target, depth-1) {
+			return true
+		}
+	}
+	return false
 }
 
 // bestIndexRoles finds the Height writer and the best-index writers of DBStore.
 func bestIndexRoles(c *Ctx, s *storeRoles) (putHeight *ir.Func, bestWriters map[*types.Func]bool) {
 	keyHeight := c.P.Package("chain").Types.Scope().Lookup("keyHeight")
 	bMain := c.P.Package("chain").Types.Scope().Lookup("bMainChain")
+	if keyHeight == nil || bMain == nil {
+		ir.Fail("keyHeight / bMainChain not found")
+	}
 	bestWriters = map[*types.Func]bool{}
 	for _, f := range s.methods {
 		if !s.writers[f.Obj] {
@@ -359,34 +427,22 @@ func bestIndexRoles(c *Ctx, s *storeRoles) (putHeight *ir.Func, bestWriters map[
 	return
 }
 
-// checkRevertRemovesEntry: the revert-side state function must delete (not overwrite) the entry above the new tip.
+// checkRevertRemovesEntry: the store's revert step must delete (not overwrite) the entry above the new tip.
 func checkRevertRemovesEntry(c *Ctx, s *storeRoles, putHeight *ir.Func, bestWriters map[*types.Func]bool) {
-	var applyState, revertState *ir.Func
-	for _, call := range s.apply.Calls(false) {
-		if callee := c.P.FuncOf(call.Fn); callee != nil && len(callee.CallsTo(false, putHeight.Obj)) > 0 {
-			applyState = callee
+	f := s.stateViews(c, putHeight, bestWriters).Of(s.revert)
+	if len(f.CallsTo(false, putHeight.Obj)) == 0 {
+		return
+	}
+	c.VisitGraph(f)
+	ob := c.Ob(f, "revert-removes-entry-above-tip", f.Body.Pos())
+	rawDel := c.P.Method("chain", "DBBucket", "Delete")
+	deletes := false
+	for _, call := range f.Calls(false) {
+		if bestWriters[call.Fn] && reaches(c.P, call.Fn, rawDel, 2) {
+			deletes = true
 		}
 	}
-	for _, call := range s.revert.Calls(false) {
-		if callee := c.P.FuncOf(call.Fn); callee != nil && len(callee.CallsTo(false, putHeight.Obj)) > 0 {
-			revertState = callee
-		}
-	}
-	if applyState != nil && revertState != nil {
-		ob := c.Ob(revertState, "revert-removes-entry-above-tip", revertState.Body.Pos())
-		deletes := false
-		for _, call := range revertState.Calls(false) {
-			if callee := c.P.FuncOf(call.Fn); callee != nil && bestWriters[call.Fn] {
-				rawDel := c.P.Method("chain", "DBBucket", "Delete")
-				for _, c3 := range callee.Calls(false) {
-					if w := c.P.FuncOf(c3.Fn); w != nil && len(w.CallsTo(false, rawDel)) > 0 {
-						deletes = true
-					}
-				}
-			}
-		}
-		ob.Check(deletes, nil, "reverting a block does not delete the best-index entry of the reverted height: stale entries above the tip make a subscriber on the old branch look as if it were on the best chain")
-	}
+	ob.Check(deletes, nil, "reverting a block does not delete the best-index entry of the reverted height: stale entries above the tip make a subscriber on the old branch look as if it were on the best chain")
 }
 
 func c03r5(c *Ctx) {
